@@ -187,9 +187,24 @@ def marshalling_python(ctx, rid, fn):
         n_ = re.escape(N)
         sized = {H: r'\[0\.0?\] \* ' + n_, NN: r'\[0\] \* ' + n_,
                  NB: r'\[\[\] for \w+ in range\(%s\)\]' % n_, JJ: r'\[\[\] for \w+ in range\(%s\)\]' % n_}
+        # num_neighbors may instead be derived from the finished rows: [len(r) for r in neighbors] (before any flattening
+        # rebinds that name)
+        nn_derived = False
+        nn_defs = [(s_, v) for s_, v in assignments_to(fn.node, NN) if isinstance(v, ast.AST)]
+        if len(nn_defs) == 1:
+            s_, v = nn_defs[0]
+            m = re.fullmatch(r'\[len\((\w+)\) for \1 in (\w+)\]|list\(map\(len, (\w+)\)\)', src(v))
+            rows_nm = m and (m.group(2) or m.group(3))
+            if rows_nm in (NB, JJ):
+                flat_st = [fs for fs, fv in assignments_to(fn.node, rows_nm) if isinstance(fv, ast.AST) and 'chain' in src(fv)]
+                app_st = [enclosing_stmt(c) for c in calls_in(fn.node, 'append') if isinstance(c.func.value, ast.Subscript)
+                          and src(c.func.value.value) == rows_nm]
+                nn_derived = not any(g.reaches(fs, s_) for fs in flat_st) and not any(g.reaches(s_, a_) for a_ in app_st)
         for nm, pat in sized.items():
             defs = [v for s_, v in sorted(assignments_to(fn.node, nm), key=lambda x: x[0].lineno) if isinstance(v, ast.AST)]
             ok = bool(defs) and re.fullmatch(pat, src(defs[0])) is not None
+            if nm == NN and nn_derived:
+                ok = True
             ctx.inst(rid, fn, 'O5 %s sized by N' % nm, ok, "%s has N entries" % nm if ok else
                      "`%s` is not created with N entries (%s): len_state and the per-spin arrays disagree" % (nm, [src(d) for d in defs][:1]))
         # O1 parallel appends
@@ -205,7 +220,7 @@ def marshalling_python(ctx, rid, fn):
                 if isinstance(s_, ast.AugAssign) and isinstance(s_.target, ast.Subscript) and src(s_.target.slice) == idx \
                         and const_num(s_.value) == 1 and isinstance(s_.op, ast.Add):
                     mates.add(src(s_.target.value))
-            ok = {NB, JJ, NN} <= mates
+            ok = ({NB, JJ} if nn_derived else {NB, JJ, NN}) <= mates
             ctx.inst(rid, fn, c, ok,
                      "neighbors[%s], J[%s] appended and num_neighbors[%s] counted together" % (idx, idx, idx) if ok else
                      "`%s` is not paired in its block with the appends to neighbors/J and the count of num_neighbors for "
